@@ -9,8 +9,22 @@
 // "!CRASH <summary>").  All bookkeeping uses libc malloc and pthreads directly: nothing the harness does between the two
 // snapshots goes through the tracked operators.
 //
-// scenario:  <seed> <outalloc 0|1> <nthreads> { <nops> op*nops }*nthreads           (see ocaml/c10_driver.ml)
-// observation:  :ok <ntests> verdict* <wfail> <adv> <distinct> <foreign> <rest> <n> (<thread> <slot> <size>)*n  |  :hang
+//
+// Two further things a script can ask for (round 3):
+//  * ":s <ms>" -- the thread's next operation RESTS <ms> milliseconds inside the locked region: the underlying allocator
+//    (PlatformSpecificMalloc / Realloc / Free, wrapped here) sleeps when it is reached with the lock held; an operation that
+//    never reaches the allocator rests just before the lock is given back.  Meanwhile the other threads ask for the lock (a
+//    thread without a directive of its own holds its last operation back until some rest has begun).  The wrappers around
+//    PlatformSpecificMutexLock/Unlock count the threads between the return of Lock and the call of Unlock; the largest count
+//    seen, minus the one the lock admits, is the <overlap> field of the observation.
+//  * ":x <slot> <how>" -- realloc(slot, n) for an n that is turned down (n in the top of size_t: refused by the detector's
+//    overflow guard; n = SIZE_MAX/2 or the largest n the guard admits: the underlying realloc fails; an ordinary n with the
+//    PlatformSpecificRealloc seam made to return NULL).  The thread keeps its block.
+// Scenarios with a rest take seconds by design: their children are started at once and waited for in order when the next
+// scenario without a rest (or the end of input) arrives, so a batch of them costs the longest, not the sum.
+//
+// scenario:  <seed> <outalloc 0|1> <nthreads> { <nitems> item*nitems }*nthreads           (see ocaml/c10_driver.ml)
+// observation:  :ok <ntests> verdict* <wfail> <adv> <distinct> <foreign> <rest> <overlap> <n> (<thread> <slot> <size>)*n  |  :hang
 #include "hlib.h"
 #include <new>
 #include <pthread.h>
@@ -21,6 +35,8 @@
 #include <fcntl.h>
 #include <dirent.h>
 #include <sys/prctl.h>
+#include <time.h>
+#include <errno.h>
 #define private public
 #define protected public
 #include "CppUTest/TestHarness.h"
@@ -61,13 +77,63 @@ static inline void perturb()
     if (r < 6) sched_yield();
     else if (r == 6 && injMode > 1) usleep((unsigned) ((injState >> 8) & 63));
 }
-static void injLock(PlatformSpecificMutex m) { perturb(); origLock(m); perturb(); }
-static void injUnlock(PlatformSpecificMutex m) { perturb(); origUnlock(m); perturb(); }
+// ---------------------------------------------------------------- who is inside the locked region; rests; the allocator seam
+static int insideNow, insidePeak;                 // threads between the return of Lock() and the call of Unlock()
+static __thread int tlsInRegion;
+static __thread unsigned tlsRestMs;               // pending ":s": the next operation of this thread rests inside the region
+static __thread int tlsFailRealloc;               // pending ":x <slot> 2": the underlying realloc of the next operation fails
+static int restsBegun;                            // rests that have started in this scenario
+static int scenarioHasRest;
+static void sleepMs(unsigned ms)
+{
+    struct timespec ts; ts.tv_sec = ms / 1000; ts.tv_nsec = (long) (ms % 1000) * 1000000L;
+    while (nanosleep(&ts, &ts) != 0 && errno == EINTR) {}
+}
+static inline void restIfAsked()
+{
+    if (!tlsRestMs || !tlsInRegion) return;
+    unsigned ms = tlsRestMs; tlsRestMs = 0;
+    __atomic_add_fetch(&restsBegun, 1, __ATOMIC_RELAXED);
+    sleepMs(ms);
+}
+static void injLock(PlatformSpecificMutex m)
+{
+    perturb(); origLock(m);
+    // relaxed: the counters must not order the threads' accesses for ThreadSanitizer
+    int v = __atomic_add_fetch(&insideNow, 1, __ATOMIC_RELAXED);
+    int pk = __atomic_load_n(&insidePeak, __ATOMIC_RELAXED);
+    while (v > pk && !__atomic_compare_exchange_n(&insidePeak, &pk, v, true, __ATOMIC_RELAXED, __ATOMIC_RELAXED)) {}
+    tlsInRegion = 1;
+    perturb();
+}
+static void injUnlock(PlatformSpecificMutex m)
+{
+    perturb();
+    restIfAsked();                                // an operation that did not reach the allocator rests here
+    tlsInRegion = 0;
+    __atomic_sub_fetch(&insideNow, 1, __ATOMIC_RELAXED);
+    origUnlock(m); perturb();
+}
+static void* (*origMalloc)(size_t);
+static void* (*origRealloc)(void*, size_t);
+static void (*origFree)(void*);
+static void* seamMalloc(size_t n) { restIfAsked(); return origMalloc(n); }
+static void seamFree(void* p) { restIfAsked(); origFree(p); }
+static void* seamRealloc(void* p, size_t n)
+{
+    restIfAsked();
+    if (tlsFailRealloc && tlsInRegion) { tlsFailRealloc = 0; return nullptr; }
+#if defined(__SANITIZE_ADDRESS__) || defined(__SANITIZE_THREAD__)
+    if (n > (size_t) PTRDIFF_MAX) return nullptr;     // libc's answer; the sanitizers' allocators would print a warning or stop
+#endif
+    return origRealloc(p, n);
+}
 
 // ---------------------------------------------------------------- scripts
 struct Op { char kind; unsigned k; size_t sz; int e; };
 struct Blk { void* p; size_t sz; int fam; int bad; char saved; };       // fam: 0 new, 1 new[], 2 malloc; bad: overrun by the script
-struct Thr { unsigned tid; Op* ops; size_t nops; Blk* tbl; size_t ntbl; unsigned long long seed; pthread_t th; size_t pc; };
+struct Thr { unsigned tid; Op* ops; size_t nops; Blk* tbl; size_t ntbl; unsigned long long seed; pthread_t th; size_t pc;
+             size_t lastOp; int hasRest; };    // lastOp: index of the last operation that enters the detector (nops if none)
 static const char* FILE_ = "c10_script.cpp";
 static char neverAllocated[64];
 static volatile int startFlag;
@@ -92,6 +158,18 @@ static void releaseEntry(int e, void* p)
     else if (e == 2) cpputest_free_location(p, FILE_, 10);
     else (void) cpputest_realloc_location(p, 8, FILE_, 12);
 }
+// sizes that realloc is refused: see the head of the file
+static size_t refusedSize(int how)
+{
+    const size_t accounting = (size_t) MemoryLeakDetector::memory_corruption_buffer_size + sizeof(void*) + sizeof(MemoryLeakDetectorNode);
+    switch (how) {
+    case 0: return SIZE_MAX - 16;
+    case 1: return SIZE_MAX / 2;
+    case 2: return 0x40;                          // with the seam made to fail
+    case 3: return SIZE_MAX - accounting;         // the largest size the overflow guard admits
+    default: return SIZE_MAX - accounting + 1;    // the smallest size it refuses
+    }
+}
 // runs the thread's operations from t->pc up to (not including) the next ":t"; a misuse on the test thread leaves by
 // longjmp from inside the call, so every slot is updated BEFORE the call that may not return
 static void runOps(Thr* t)
@@ -99,6 +177,9 @@ static void runOps(Thr* t)
     while (t->pc < t->nops) {
         Op& o = t->ops[t->pc];
         if (o.kind == 't') return;
+        if (o.kind == 's') { t->pc++; tlsRestMs = (unsigned) o.sz; continue; }
+        if (scenarioHasRest && !t->hasRest && t->pc == t->lastOp)       // be there to ask for the lock while its holder rests
+            for (int w = 0; w < 2500 && !__atomic_load_n(&restsBegun, __ATOMIC_RELAXED); w++) usleep(200);
         t->pc++;
         Blk& b = t->tbl[o.k];
         if (o.kind == 'a') { b.p = allocEntry(o.e, o.sz); b.sz = o.sz; b.fam = famOfAllocEntry(o.e); b.bad = 0; if (b.p) memset(b.p, 0x5a, o.sz); }
@@ -106,12 +187,19 @@ static void runOps(Thr* t)
         else if (o.kind == 'r') { void* p = b.p; b.p = nullptr; void* q = cpputest_realloc_location(p, o.sz, FILE_, 11); b.p = q; b.sz = o.sz; b.fam = 2; b.bad = 0; }
         else if (o.kind == 'o') { if (b.p && !b.bad) { b.saved = ((char*) b.p)[b.sz]; ((char*) b.p)[b.sz] = 'x'; b.bad = 1; } }
         else if (o.kind == 'w') releaseEntry(o.e, neverAllocated + 16);
+        else if (o.kind == 'x') {
+            size_t n = refusedSize(o.e);
+            tlsFailRealloc = o.e == 2;
+            void* q = cpputest_realloc_location(b.p, n, FILE_, 13);
+            tlsFailRealloc = 0;
+            if (q) { b.p = q; b.sz = n; b.fam = 2; b.bad = 0; }      // not expected: the request cannot be met
+        }
     }
 }
 static void* threadMain(void* a)
 {
     Thr* t = (Thr*) a;
-    injState = t->seed | 1;
+    injState = t->seed | 1; tlsRestMs = 0;
     while (!__atomic_load_n(&startFlag, __ATOMIC_ACQUIRE)) sched_yield();
     runOps(t);
     return nullptr;
@@ -193,9 +281,13 @@ static void scenarioChild(Toks& t, int wfd)
             else if (k == ":o") { o.kind = 'o'; o.k = (unsigned) t.u(); }
             else if (k == ":w") { o.kind = 'w'; o.e = t.n(); }
             else if (k == ":t") { o.kind = 't'; if (i == 0) ntests++; }
+            else if (k == ":x") { o.kind = 'x'; o.k = (unsigned) t.u(); o.e = t.n(); }
+            else if (k == ":s") { o.kind = 's'; o.sz = (size_t) t.u(); if (o.sz > 5000) o.sz = 5000; thr[i].hasRest = 1; scenarioHasRest = 1; }
             else { fprintf(stderr, "bad op %s\n", k.c_str()); _exit(3); }
             if (o.k > maxk) maxk = o.k;
         }
+        thr[i].lastOp = thr[i].nops;
+        for (size_t j = 0; j < thr[i].nops; j++) if (strchr("afrwx", thr[i].ops[j].kind)) thr[i].lastOp = j;
         thr[i].ntbl = maxk + 1; thr[i].tbl = (Blk*) calloc(thr[i].ntbl, sizeof(Blk));
         live += thr[i].ntbl;
     }
@@ -225,6 +317,7 @@ static void scenarioChild(Toks& t, int wfd)
     size_t n0 = d->totalMemoryLeaks(mem_leak_period_all);
     unsigned seq0 = d->getCurrentAllocationNumber();
     inTest = 1;
+    __atomic_store_n(&insideNow, 0, __ATOMIC_RELAXED); __atomic_store_n(&insidePeak, 0, __ATOMIC_RELAXED);
     for (unsigned i = 1; i < n; i++) pthread_create(&thr[i].th, nullptr, threadMain, &thr[i]);
     __atomic_store_n(&startFlag, 1, __ATOMIC_RELEASE);
     reg->runAllTests(*result);          // thread 0: one registered test per segment of its script
@@ -232,6 +325,7 @@ static void scenarioChild(Toks& t, int wfd)
     inTest = 0;
     size_t n1 = d->totalMemoryLeaks(mem_leak_period_all);
     unsigned seq1 = d->getCurrentAllocationNumber();
+    int peak = __atomic_load_n(&insidePeak, __ATOMIC_RELAXED);
 
     // what the threads still hold, by address
     Ent* held = (Ent*) calloc(live + 1, sizeof(Ent)); size_t nheld = 0;
@@ -267,6 +361,7 @@ static void scenarioChild(Toks& t, int wfd)
     o += " " + hx((unsigned long long) distinct);
     o += " " + hx((unsigned long long) (foreign - n0 - dryLeaks));
     o += " " + hx((unsigned long long) (n2 - n0 - dryLeaks));
+    o += " " + hx((unsigned long long) (peak > 1 ? peak - 1 : 0));
     o += " " + hx(nents);
     for (size_t i = 0; i < nents; i++) o += " " + hx(ents[i].tid) + " " + hx(ents[i].k) + " " + hx(ents[i].sz);
     o += "\n";
@@ -304,32 +399,53 @@ static bool childProgress(pid_t pid, unsigned long long& ticks)
     return moved;
 }
 
-static void scenario(Toks& t, double deadline)
+static double nowSec() { struct timespec ts; clock_gettime(CLOCK_MONOTONIC, &ts); return (double) ts.tv_sec + (double) ts.tv_nsec * 1e-9; }
+// rests asked for by a scenario, in seconds: they are spent inside the lock one after another, and while one lasts nothing in
+// the child moves -- the deadline and the no-progress window have to allow for them
+struct Rests { double sum, longest; };
+static Rests restsOf(const Toks& t)
+{
+    Rests r = { 0, 0 };
+    for (size_t i = 0; i + 1 < t.t.size(); i++) if (t.t[i] == ":s") {
+        double ms = (double) strtoull(t.t[i + 1].c_str(), nullptr, 16); if (ms > 5000) ms = 5000;
+        r.sum += ms / 1000; if (ms / 1000 > r.longest) r.longest = ms / 1000;
+    }
+    return r;
+}
+struct Child { pid_t pid; int fd; double t0; Rests rests; };
+static Child startScenario(Toks& t)
 {
     int fd[2]; if (pipe(fd) != 0) { perror("pipe"); exit(3); }
     fflush(stdout); fflush(stderr);
-    pid_t pid = fork();
-    if (pid < 0) { perror("fork"); exit(3); }
-    if (pid == 0) { prctl(PR_SET_PDEATHSIG, SIGKILL); close(fd[0]); scenarioChild(t, fd[1]); }   // never outlive the harness
-    close(fd[1]);
+    Child c; c.rests = restsOf(t); c.t0 = nowSec();
+    c.pid = fork();
+    if (c.pid < 0) { perror("fork"); exit(3); }
+    if (c.pid == 0) { prctl(PR_SET_PDEATHSIG, SIGKILL); close(fd[0]); scenarioChild(t, fd[1]); }   // never outlive the harness
+    close(fd[1]); c.fd = fd[0];
+    fcntl(c.fd, F_SETFL, O_NONBLOCK);
+    return c;
+}
+static void finishScenario(Child& c, double deadline)
+{
     // read until EOF (the observation can be longer than a pipe buffer) while watching the deadline
     std::string got; char buf[4096];
     int status = 0; bool done = false;
-    fcntl(fd[0], F_SETFL, O_NONBLOCK);
     unsigned long long ticks = 0; double quiet = 0;
-    for (int i = 0; i < (int) (deadline * 200); i++) {
-        for (;;) { ssize_t len = read(fd[0], buf, sizeof buf); if (len > 0) got.append(buf, (size_t) len); else break; }
-        if (waitpid(pid, &status, WNOHANG) == pid) { done = true; break; }
+    const double limit = deadline + c.rests.sum;
+    const double window = c.rests.longest > 0 ? c.rests.longest + 1.0 + quietWindow : quietWindow;
+    for (int i = 0; nowSec() - c.t0 < limit; i++) {
+        for (;;) { ssize_t len = read(c.fd, buf, sizeof buf); if (len > 0) got.append(buf, (size_t) len); else break; }
+        if (waitpid(c.pid, &status, WNOHANG) == c.pid) { done = true; break; }
         usleep(5000);
-        if (i % 4 == 3) { if (childProgress(pid, ticks)) quiet = 0; else quiet += 0.02; if (quiet >= quietWindow) break; }
+        if (i % 4 == 3) { if (childProgress(c.pid, ticks)) quiet = 0; else quiet += 0.02; if (quiet >= window) break; }
     }
     if (!done) {
-        kill(pid, SIGKILL); waitpid(pid, &status, 0); close(fd[0]);
+        kill(c.pid, SIGKILL); waitpid(c.pid, &status, 0); close(c.fd);
         quietWindow = quietWindow / 2 < 0.1 ? 0.1 : quietWindow / 2;
         printf(":hang\n"); fflush(stdout); return;
     }
-    for (;;) { ssize_t len = read(fd[0], buf, sizeof buf); if (len > 0) got.append(buf, (size_t) len); else break; }
-    close(fd[0]);
+    for (;;) { ssize_t len = read(c.fd, buf, sizeof buf); if (len > 0) got.append(buf, (size_t) len); else break; }
+    close(c.fd);
     if (WIFEXITED(status) && WEXITSTATUS(status) == 0 && !got.empty() && got[got.size() - 1] == '\n') { fputs(got.c_str(), stdout); fflush(stdout); return; }
     // the child died (sanitizer report, signal): die the same way, the child's report is already on stderr
     fprintf(stderr, "C10 harness: scenario child %s %d\n", WIFSIGNALED(status) ? "killed by signal" : "exited with", WIFSIGNALED(status) ? WTERMSIG(status) : WEXITSTATUS(status));
@@ -344,7 +460,19 @@ int main(int argc, char** argv)
     MemoryLeakWarningPlugin::getGlobalDetector();            // created before any thread exists
     origLock = PlatformSpecificMutexLock; origUnlock = PlatformSpecificMutexUnlock;
     PlatformSpecificMutexLock = injLock; PlatformSpecificMutexUnlock = injUnlock;
+    origMalloc = PlatformSpecificMalloc; origRealloc = PlatformSpecificRealloc; origFree = PlatformSpecificFree;
+    PlatformSpecificMalloc = seamMalloc; PlatformSpecificRealloc = seamRealloc; PlatformSpecificFree = seamFree;
     Toks t;
-    while (readline(t)) scenario(t, deadline);
+    // scenarios with a rest are started as they arrive and collected, in order, before the next scenario without one
+    std::vector<Child> resting;
+    while (readline(t)) {
+        bool rest = restsOf(t).sum > 0;
+        if (rest && resting.size() < 8) { resting.push_back(startScenario(t)); continue; }
+        for (size_t i = 0; i < resting.size(); i++) finishScenario(resting[i], deadline);
+        resting.clear();
+        Child c = startScenario(t);
+        finishScenario(c, deadline);
+    }
+    for (size_t i = 0; i < resting.size(); i++) finishScenario(resting[i], deadline);
     return 0;
 }
